@@ -50,6 +50,8 @@ func cmdFuncs(args []string) {
 	dumpAll := fs.Bool("dumpall", false, "dump every solved query")
 	all := fs.Bool("all", false, "wait for all solvers")
 	only := fs.String("only", "", "substring filter on obligation names")
+	split := fs.Bool("split", false, "split failing goals into conjuncts and report the failing ones")
+	blockCover := fs.Bool("blockcover", false, "report blocks no admitted execution reaches (vacuity diagnostic)")
 	_ = fs.Parse(args)
 	cpath := *contracts
 	if cpath == "" {
@@ -91,6 +93,39 @@ func cmdFuncs(args []string) {
 		filter = func(o *Obligation) bool { return strings.Contains(o.Name, *only) }
 	}
 	discharge(scratch, results, *timeout, *all, filter)
+	if *split {
+		for _, r := range results {
+			for _, o := range r.Obligations {
+				if o.Result == nil || o.Result.Status == "unsat" || o.Kind == "canary" {
+					continue
+				}
+				parts := splitGoal(o.Goal.S)
+				if len(parts) < 2 {
+					continue
+				}
+				for i, p := range parts {
+					o2 := *o
+					o2.Goal = Term{p, SBool}
+					o2.Name = fmt.Sprintf("%s~part%d", o.Name, i)
+					rr := runStaged(scratch, o2.Name, r.Enc.queryFor(&o2), []string{r.Enc.queryForMode(&o2, modeSelf), r.Enc.queryForMode(&o2, modePost), r.Enc.queryForMode(&o2, modeLocal)}, nil, *timeout, false)
+					if rr.Status != "unsat" {
+						txt := p
+						if len(txt) > 300 {
+							txt = txt[:300] + "..."
+						}
+						fmt.Printf("   SPLIT %s part %d/%d %s: %s\n", o.Name, i, len(parts), rr.Status, txt)
+					}
+				}
+			}
+		}
+	}
+	if *blockCover {
+		for _, r := range results {
+			if !r.Trusted {
+				r.DeadBlocks, _ = blockCovers(scratch, r, 60)
+			}
+		}
+	}
 	fmt.Print(summarize(results))
 	if *dump != "" {
 		_ = os.MkdirAll(*dump, 0755)
@@ -98,12 +133,14 @@ func cmdFuncs(args []string) {
 			for _, o := range r.Obligations {
 				if o.Result != nil && (*dumpAll || o.Result.Status != "unsat") {
 					_ = os.WriteFile(filepath.Join(*dump, sanitize(o.Name)+".smt2"), []byte(r.Enc.queryFor(o)+"(check-sat)\n"), 0644)
+					_ = os.WriteFile(filepath.Join(*dump, sanitize(o.Name)+".post.smt2"), []byte(lambdaFrames(r.Enc.queryForMode(o, modePost))+"(check-sat)\n"), 0644)
+					_ = os.WriteFile(filepath.Join(*dump, sanitize(o.Name)+".self.smt2"), []byte(lambdaFrames(r.Enc.queryForMode(o, modeSelf))+"(check-sat)\n"), 0644)
+					_ = os.WriteFile(filepath.Join(*dump, sanitize(o.Name)+".local.smt2"), []byte(lambdaFrames(r.Enc.queryForMode(o, modeLocal))+"(check-sat)\n"), 0644)
 				}
 			}
 		}
 	}
 }
-
 
 // cmdReplay re-runs a recorded counterexample against the real code in /repo (or $VERIF_REPO): the inputs stored
 // in the replay file are fed to the real function again and its postconditions are evaluated on the observed run.
